@@ -332,8 +332,25 @@ def main(argv):
     all_fail = []
     stats = {}
     vacuous = []
+    reseeded = {}
+    all_known = {k['obligation'] for k in load_known() if k.get('status') == 'known'}
     for name, (rs, meta) in built.items():
         fails, und, vac, st = classify(name, meta, results[name])
+        suspicious = [f for f in fails if f['obligation'] not in all_known]
+        soft_und = [u for u in und if 'rlimit' in u or 'Resource limit' in u]
+        if (suspicious or (soft_und and len(soft_und) == len(und))) and not os.environ.get('VERIF_NO_RESEED'):
+            # A failed or given-up query is re-asked under two more Z3 seeds before it is believed: a proof found under any
+            # seed is a proof, a real violation fails under every seed (guards against solver instability, never hides a defect).
+            with concurrent.futures.ThreadPoolExecutor(max_workers=2) as ex2:
+                more = list(ex2.map(lambda sd: run_verus(rs, extra=['--smt-option', 'smt.random_seed=%d' % sd]), (1, 2)))
+            runs = [(fails, und, vac, st)] + [classify(name, meta, r) for r in more]
+            decided = [r for r in runs if not r[1]]
+            reseeded[name] = {'seeds': [0, 1, 2], 'failed_per_seed': [sorted(f['obligation'] for f in r[0]) for r in runs],
+                              'undecided_per_seed': [len(r[1]) for r in runs]}
+            if decided:
+                common = set.intersection(*[set(f['obligation'] for f in r[0]) for r in decided])
+                fails = [f for f in decided[0][0] if f['obligation'] in common]
+                und, vac = [], decided[0][2]
         all_fail += fails
         undecided += und
         vacuous += ['%s::%s' % (name, v) for v in vac]
@@ -442,6 +459,7 @@ def main(argv):
         },
         'assumptions': assumptions_for(pid),
         'wall_s': round(time.time() - t0, 2),
+        'reseeded_units': reseeded,
         'violations': len(violations) if rc == 1 else 0,
     }
     evdir = os.environ.get('VERIF_EVIDENCE_DIR') or os.path.join(VERIF, 'evidence')
